@@ -327,21 +327,16 @@ theorem applyForced_step (n : Node) (b : Hdr) : Step n (applyForced {} n b).1 0 
   · split
     · exact Step.refl _
     · exact Step.refl _
-    · split
-      · exact Step.refl _
-      · rename_i fc _ _ _ _ cur hcur
-        have s1 : Step n (n.put (.change cur fc.bestFin)) 0 :=
-          Step.put (w := .change cur fc.bestFin) (fun _ => trivial)
-        have s2 := startNext_step (n.put (.change cur fc.bestFin)) fc.tag fc.eff
-        have hm := startNext_mem {} (n.put (.change cur fc.bestFin)) fc.tag fc.eff
-        generalize hr : startNext {} (n.put (.change cur fc.bestFin)) fc.tag fc.eff = res at s2 hm
-        obtain ⟨n2, ok⟩ := res
-        cases ok with
-        | false => simpa using s1.trans s2
-        | true =>
-          have s3 : Step n2 { n2 with forced := [], sched := [] } 0 :=
-            Step.same rfl rfl (fun _ h => h) rfl
-          simpa using (s1.trans s2).trans s3
+    · rename_i fc _ _ _
+      have s2 := startNext_step n fc.tag fc.bestFin
+      generalize hr : startNext {} n fc.tag fc.bestFin = res at s2
+      obtain ⟨n2, ok⟩ := res
+      cases ok with
+      | false => exact s2
+      | true =>
+        have s3 : Step n2 { n2 with forced := [], sched := [] } 0 :=
+          Step.same rfl rfl (fun _ h => h) rfl
+        simpa using s2.trans s3
 
 theorem applyScheduled_step (n : Node) (b : Hdr) : Step n (applyScheduled {} n b).1 0 := by
   unfold applyScheduled
@@ -361,7 +356,7 @@ theorem applyScheduled_step (n : Node) (b : Hdr) : Step n (applyScheduled {} n b
       · rename_i p _
         have s1 : Step n { n with forced := forced, sched := p.kids } 0 :=
           Step.same rfl rfl (fun _ h => h) rfl
-        have := s1.trans (startNext_step { n with forced := forced, sched := p.kids } p.change.tag p.change.eff)
+        have := s1.trans (startNext_step { n with forced := forced, sched := p.kids } p.change.tag b.number)
         simpa using this
 
 /-! ### scenario operations -/
